@@ -25,6 +25,7 @@ import (
 	"os"
 	"os/exec"
 	"runtime"
+	"sort"
 	"strconv"
 	"strings"
 	"time"
@@ -843,5 +844,7 @@ func ptGenInputs(e *env, budget int) []ptCase {
 		}
 		add("file", "random-bytes", sb.String())
 	}
+	// shortest inputs first: the first failing input reported is then a small one
+	sort.SliceStable(cs, func(i, j int) bool { return len(cs[i].Text) < len(cs[j].Text) })
 	return cs
 }
